@@ -347,20 +347,20 @@ def Validate(a, ident):
 
 
 def RecVia(a, f):
-    return _mk(f"rec_via({a.rs}, {f.rs})", f"G::Recover(&{a.ast}, Strat::Via(&{f.ast}))",
+    return _mk(f"rec_via({a.rs}, {f.rs})", f"G::RecVia(&{a.ast}, &{f.ast})",
                f"{a.desc}.recover_with(via_parser({f.desc}))", [a, f], flags=["recover"], site=1)
 
 
 def RecSkipUntil(a, skip, until):
     return _mk(f"rec_skip_until({a.rs}, {skip.rs}, {until.rs})",
-               f"G::Recover(&{a.ast}, Strat::SkipUntil(&{skip.ast}, &{until.ast}))",
+               f"G::RecSkipUntil(&{a.ast}, &{skip.ast}, &{until.ast})",
                f"{a.desc}.recover_with(skip_until({skip.desc}, {until.desc}, FB))", [a, skip, until],
                flags=["recover"], site=1)
 
 
 def RecSkipRetry(a, skip, until):
     return _mk(f"rec_skip_retry({a.rs}, {skip.rs}, {until.rs})",
-               f"G::Recover(&{a.ast}, Strat::SkipRetry(&{skip.ast}, &{until.ast}))",
+               f"G::RecSkipRetry(&{a.ast}, &{skip.ast}, &{until.ast})",
                f"{a.desc}.recover_with(skip_then_retry_until({skip.desc}, {until.desc}))", [a, skip, until],
                flags=["recover"], site=1)
 
